@@ -1014,6 +1014,25 @@ class Module(ABC):
         # Override `comp_index` to just be a consecutive list.
         all_nodes["global_comp_index"] = np.arange(len(all_nodes))
 
+        # Groups list compartment indices, which shift when the number of compartments
+        # of a branch changes. A group that contained (a part of) the modified branch
+        # contains all of its new compartments.
+        num_new_ncomp = len(view)
+        old_inds = np.arange(start_idx, start_idx + num_previous_ncomp)
+        for group_name, group_inds in self.base.groups.items():
+            group_inds = np.asarray(group_inds)
+            inds_before = group_inds[group_inds < start_idx]
+            inds_after = group_inds[group_inds >= start_idx + num_previous_ncomp]
+            inds_after = inds_after + num_new_ncomp - num_previous_ncomp
+            inds_within = (
+                np.arange(start_idx, start_idx + num_new_ncomp)
+                if np.isin(old_inds, group_inds).any()
+                else np.asarray([], dtype=int)
+            )
+            self.base.groups[group_name] = np.sort(
+                np.concatenate([inds_before, inds_within, inds_after])
+            ).astype(int)
+
         # Update compartment structure arguments.
         ncomp_per_branch[branch_indices] = ncomp
         ncomp = int(np.max(ncomp_per_branch))
